@@ -1737,7 +1737,8 @@ namespace awkward {
           nextcontent.get()->getitem_next(nexthead,
                                           nexttail,
                                           nextadvanced),
-          array.shape());
+          array.shape(),
+          lenstarts);
       }
       else {
         return nextcontent.get()->getitem_next(nexthead,
@@ -1812,7 +1813,7 @@ namespace awkward {
                                           util::Parameters(),
                                           down,
                                           jagged.length(),
-                                          1);
+                                          length());
   }
 
   template <typename T>
